@@ -35,7 +35,9 @@ Next ==
                  \/ (IsFeat(heap[2]) /\ \E via \in {"callable", "y"} : AFeatIntLogCondY(2, 1, 1, via))
                  \/ (IsHet(heap[2]) /\ \E N \in {1, 3} : AHetCondOnX(2, N, 0))
                  \/ (IsHet(heap[2]) /\ HDa(heap[2]) = HDy(heap[2]) /\ NumR(heap[1]) = 1 /\ \E s \in {0, 1} : AHetIntLogCondY(2, 1, s))
-                 \/ (Bound /\ IsHet(heap[2]) /\ NumR(heap[1]) = 1 /\ \E u \in 1..HDk(heap[2]), oi \in 1..Len(OMEGAS) : AHetK(2, 1, u, oi))
+                 \* k_func depends on (W, p_x) only: one output dimension and square A suffice
+                 \/ (Bound /\ IsHet(heap[2]) /\ NumR(heap[1]) = 1 /\ HDy(heap[2]) = 1 /\ HDa(heap[2]) = 2 /\
+                     \E u \in 1..HDk(heap[2]), oi \in 1..Len(OMEGAS) : AHetK(2, 1, u, oi))
                  \/ (Bound /\ IsHet(heap[2]) /\ \E u \in 1..HDk(heap[2]), oi \in 1..Len(OMEGAS) : AHetLBI(2, 1, u, oi, 1))
                  \/ (Bound /\ IsHet(heap[2]) /\ \E s \in {0, 1} : AHetLBAssembly(2, 1, s))
                  \/ \E k \in {"marginal", "joint", "conditional"} :
